@@ -1,3 +1,113 @@
-"""C17 real-binary part: h / l / N| on lines with tabs, wide and RTL characters (filled in with the vi harness)."""
+"""C17 real-binary part: l / h / N| on lines with tabs, wide, placeholder and right-to-left
+characters move to the character displayed immediately to the right / left / at the column.
+
+Oracle: visual order from the run-reversal model of C18 (character classes from conf.h) and the
+table-driven cell widths of C17; the cursor is observed through a marker.
+"""
+import common, gen, tables
+from common import pmap, rng, build
+
+MARK = '\ue000'
+
+
+def layout(line, W, R2L, NEUT):
+    import c18
+    ordv = c18.model_ord(line + '\n', 1, R2L, NEUT)
+    if ordv is None:
+        return None
+    n = len(line)
+    vis = sorted(range(n + 1), key=lambda i: ordv[i])     # logical indices in visual order (terminator last)
+    pos = {}
+    c = 0
+    for i in vis:
+        pos[i] = c
+        c += 1 if i == n else W.cwid(ord(line[i]), c)
+    return vis, pos, c
+
+
+def run_case(args):
+    vi, idx, W, R2Ls, NEUTs = args
+    R = rng('c17b', idx)
+    R2L, NEUT = set(R2Ls), set(NEUTs)
+    words = ['ab', 'x', 'foo', '\t', '中', 'سلام', 'بب', 'ا', ' ', ' ', '1', '-', 'é', 'ّ', 'ＷＷ']
+    line = R.choice(['a', 'x ', 'ab\t']) + ''.join(R.choice(words) for _ in range(R.randint(1, 8)))
+    lay = layout(line, W, R2L, NEUT)
+    if lay is None:
+        return ('cut', None, None, False)
+    vis, pos, total = lay
+    n = len(line)
+    kind = R.choice(['l', 'l', 'h', 'col'])
+    if kind == 'l':
+        k = R.randint(1, n + 2)
+        keys = '0' + 'l' * k
+        rank = min(k, n - 1)
+        # l moves one character to the right on screen and stops in front of the terminator
+        seq = [i for i in vis if i != n]
+        start = seq.index(0)
+        want = seq[min(start + k, len(seq) - 1)]
+    elif kind == 'h':
+        k = R.randint(1, n + 2)
+        keys = '$' + 'h' * k
+        seq = [i for i in vis if i != n]
+        start = seq.index(n - 1)
+        want = seq[max(start - k, 0)]
+        if line[n - 1] in R2L:
+            return ('cut', None, None, False)
+    else:
+        col = R.randint(1, total + 3)
+        keys = '%d|' % col
+        want = None
+        for i in vis:
+            if i != n and pos[i] <= col - 1:
+                if want is None or pos[i] > pos[want]:
+                    want = i
+        if want is None:
+            want = 0
+        if col - 1 >= pos[n]:
+            # on or beyond the terminator's cell: the cursor is pulled back to the last character of the line
+            want = n - 1
+    data = (keys + 'i' + MARK + '\x1b:w! out\n').encode('utf-8')
+    r, d = common.run_vi(vi, data, files={'f1': (line + '\n').encode('utf-8')}, timeout=60, cols=200)
+    out = common.readf(d, 'out')
+    common.rmcase(d)
+    wit = {'index': idx, 'line': line, 'keys': keys}
+    rep = common.san_report(r)
+    if rep:
+        return (rep, 'sanitizer/crash: line %r keys %r: %s' % (line, keys, r.err[-300:].decode('latin-1')), wit, False)
+    if r.timed_out or out is None:
+        return ('inconclusive', None, wit, False)
+    try:
+        got = out.decode('utf-8').split('\n')[0]
+    except UnicodeDecodeError:
+        return ('binary:invalid-utf8', 'line %r keys %r' % (line, keys), wit, False)
+    if got.replace(MARK, '') != line or MARK not in got:
+        return ('binary:text-changed', 'line %r keys %r -> %r' % (line, keys, got), wit, False)
+    at = got.index(MARK)
+    if at != want:
+        return ('binary:%s' % kind, 'line %r keys %r: cursor on character #%d (%r), the character displayed %s is #%d (%r); visual order %s' % (
+            line, keys, at, line[at] if at < n else '$', {'l': 'k steps to the right', 'h': 'k steps to the left', 'col': 'at that column'}[kind], want, line[want], vis), wit, False)
+    return (None, None, None, vis != list(range(n + 1)))
+
+
 def run(tier, V):
-    return {}
+    vi = build('asan')
+    import c17
+    W = c17.Widths()
+    R2Ls, NEUTs = tables.conf_macro('CR2L'), tables.conf_macro('CNEUT')
+    if R2Ls is None or NEUTs is None:
+        V.inconclusive += 1
+        return {}
+    n = 600 if tier == 'quick' else 10000
+    base = common.seed() * 7
+    res = pmap(run_case, [(vi, base + i, W, R2Ls, NEUTs) for i in range(n)])
+    nt = 0
+    for key, what, wit, reordered in res:
+        if key == 'inconclusive':
+            V.inconclusive += 1
+        elif key == 'cut':
+            pass
+        elif key:
+            V.violation(key, what, wit)
+        elif reordered:
+            nt += 1
+    return {'binary_runs': n, 'binary_nontrivial': nt, 'samples': [{'line': 'ab سلام cd', 'keys': '0lll'}]}
